@@ -89,7 +89,10 @@ HcOut(x) ==
   LET r == HcRules(x)
       lower == Lt(H(x.lf), r.icpt)
   IN [log |-> HcLog(x, r, FALSE),
-      alts |-> {HcLog(x, HcRulesT(x, t1, t2), t3) : t1 \in BOOLEAN, t2 \in BOOLEAN, t3 \in BOOLEAN},
+      \* (t3 is open only where the intercept is a COMPUTED number: a clamped intercept is a calibration flow itself, an
+      \* evaluation flow equal to it compares equal exactly, and "at or above the intercept" means the horizontal line)
+      alts |-> UNION {{HcLog(x, HcRulesT(x, t1, t2), t3) : t3 \in (IF HcRulesT(x, t1, t2).rule = "regular" THEN BOOLEAN ELSE {FALSE})} :
+                        t1 \in BOOLEAN, t2 \in BOOLEAN},
       rule |-> r.rule, seg |-> IF lower THEN "slanted" ELSE "horizontal",
       acrp |-> x.lf < x.fi]
 HcSpec == Start(HcCases) /\ [][Step(HcOut(c))]_vars
